@@ -244,7 +244,7 @@ def run_impl(build, sc, label, cases, seed, timeout=600):
                 f.write(" (%d . %s)" % (i, str_lit(cases[i][1])))
             f.write(")\n")
     try:
-        p = build.run([DRV, inp], timeout=timeout)
+        p = build.run([DRV, inp], timeout=timeout, env=getattr(build, "c20env", None))
         out, rc, err = p.stdout, p.returncode, p.stderr
     except __import__("subprocess").TimeoutExpired as ex:
         out, rc, err = ex.stdout or b"", -9, b"timeout"
@@ -566,6 +566,16 @@ def report_rejections(chk, build, sc, evs, rej, per_stage=16, stages=3):
     return {k: len(v[2]) for k, v in found.items()}
 
 
+def snapshot_lib(build, sc):
+    """The Scheme libraries are loaded from the tree at run time: work on a snapshot taken together with the build,
+       so that every case of one run (and its re-runs during minimisation) sees the same implementation even if
+       the tree is edited meanwhile."""
+    import shutil
+    snap = sc.sub("libsnap")
+    shutil.copytree(os.path.join(vlib.REPO, "lib"), snap, dirs_exist_ok=True)
+    build.c20env = {"CHIBI_MODULE_PATH": build.lib + ":" + snap}
+
+
 # --------------------------------------------------------------------------
 # the check
 # --------------------------------------------------------------------------
@@ -655,6 +665,7 @@ def run():
         t0 = time.time()
         phase = chk.cov.setdefault("phase_seconds", {})
         build = vlib.build_repo(sc.sub("build"))
+        snapshot_lib(build, sc)
         S = chk.seed
         phase["build"] = round(time.time() - t0, 1); t0 = time.time()
         # ---- model checking of the specification runs in the background while cases are generated and executed
@@ -764,6 +775,7 @@ def replay(path):
     print("rejected clauses at the time:", m.get("clauses"))
     with vlib.Scratch("c20r") as sc:
         build = vlib.build_repo(sc.sub("build"))
+        snapshot_lib(build, sc)
         evs = run_impl(build, sc, "replay", [(m["sre"], m["s"], m["datum"])], 1)
         rej, r = validate_soft(sc, "replay", evs)
         e = evs[0]
